@@ -1,5 +1,7 @@
 (** C11 — a conflict-free LR table accepts exactly L(G) and yields a valid derivation.
     (stage-1 placeholder: the theorems follow in C11/Proofs*.v) *)
+From Coq Require Import List ZArith.
+From Algo.Grammar Require Import CFG.
 From Algo.C11 Require Import Model.
 Import ListNotations.
 
@@ -8,12 +10,13 @@ Import ListNotations.
 Definition ex_S : nat := 18.
 Definition ex_p1 : prod := mkProd ex_S [Tm 0; Tm 1; Tm 0].
 Definition ex_p2 : prod := mkProd ex_S [Nt ex_S; Nt ex_S; Tm 0].
+Definition sh (s : Z) (a : nat) (t : Z) : Z * look * action := (s, Some a, Shift t).
+Definition rd (s : Z) (a : look) (p : prod) : Z * look * action := (s, a, Reduce p).
 Definition ex_tbl : table := mkTable
-  [ (0, Some 0, Shift 6); (1, Some 0, Shift 6); (1, None, Accept);
-    (2, Some 0, Reduce ex_p2); (2, Some 1, Shift 5); (2, None, Reduce ex_p2);
-    (3, Some 0, Reduce ex_p1); (3, None, Reduce ex_p1); (4, Some 0, Shift 2);
-    (5, Some 0, Shift 3); (6, Some 1, Shift 5) ]%Z
-  [ (0, ex_S, 1); (1, ex_S, 4); (4, ex_S, 4) ]%Z.
+  [ sh 0 0 6; sh 1 0 6; (1%Z, None, Accept);
+    rd 2 (Some 0) ex_p2; sh 2 1 5; rd 2 None ex_p2;
+    rd 3 (Some 0) ex_p1; rd 3 None ex_p1; sh 4 0 2; sh 5 0 3; sh 6 1 5 ]
+  [ (0%Z, ex_S, 1%Z); (1%Z, ex_S, 4%Z); (4%Z, ex_S, 4%Z) ].
 
 Example C11_example :
   (match parse 100 ex_tbl [0;1;0] with Accepted evs => prods_of evs | _ => [] end) = [ex_p1] /\
